@@ -14,6 +14,7 @@ import (
 type Clause struct {
 	Kind  string // requires, ensures, invariant, decreases, lemma, chaninv
 	Props []string // non-empty: the clause is an obligation of these properties only (label@C11,C12)
+	AssumeScoped bool // label@~C08: also only assumed (at call sites) in runs of those properties
 	Label string
 	Expr  *Expr
 	Text  string
@@ -306,6 +307,8 @@ func addClause(c *Contract, kw, text, file string, line int) error {
 			base := cand
 			if j := strings.Index(cand, "@"); j > 0 {
 				base = cand[:j]
+				cand2 := strings.ReplaceAll(cand[j+1:], "~", "")
+				_ = cand2
 			}
 			if isIdent(base) && !strings.HasPrefix(text[i:], ":=") {
 				label = cand
@@ -313,15 +316,21 @@ func addClause(c *Contract, kw, text, file string, line int) error {
 			}
 		}
 		var props []string
+		scoped := false
 		if j := strings.Index(label, "@"); j > 0 {
-			props = strings.Split(label[j+1:], ",")
+			tags := label[j+1:]
+			if strings.HasPrefix(tags, "~") {
+				scoped = true
+				tags = tags[1:]
+			}
+			props = strings.Split(tags, ",")
 			label = label[:j]
 		}
 		e, err := parseExpr(text)
 		if err != nil {
 			return nil, fmt.Errorf("%s:%d: %v", file, line, err)
 		}
-		return &Clause{Kind: kind, Label: label, Props: props, Expr: e, Text: text, File: file, Line: line}, nil
+		return &Clause{Kind: kind, Label: label, Props: props, AssumeScoped: scoped, Expr: e, Text: text, File: file, Line: line}, nil
 	}
 	switch kw {
 	case "props":
@@ -512,7 +521,7 @@ func lex(s string) ([]tok, error) {
 			i++
 		case unicode.IsLetter(r) || r == '_' || r == '#':
 			j := i + 1
-			for j < len(rs) && (unicode.IsLetter(rs[j]) || unicode.IsDigit(rs[j]) || rs[j] == '_' || rs[j] == '$') {
+			for j < len(rs) && (unicode.IsLetter(rs[j]) || unicode.IsDigit(rs[j]) || rs[j] == '_' || rs[j] == '$' || (rs[j] == '#' && j+1 < len(rs) && unicode.IsDigit(rs[j+1]))) {
 				j++
 			}
 			toks = append(toks, tok{"ident", string(rs[i:j])})
